@@ -20,7 +20,6 @@ package main
 
 import (
 	"context"
-	"crypto/sha1"
 	"fmt"
 	"os"
 	"path/filepath"
@@ -34,6 +33,7 @@ import (
 	hatypes "github.com/jcmoraisjr/haproxy-ingress/pkg/haproxy/types"
 	"github.com/jcmoraisjr/haproxy-ingress/pkg/utils"
 
+	"hapverif/gen"
 	"hapverif/hvutil"
 	"hapverif/world"
 )
@@ -54,7 +54,9 @@ func init() {
 				}
 				want = append(want, k)
 			}
-			c12instCase(c, a[1] == "1", n, want, strings.Split(a[4], ","))
+			j := &c12jobs{c: c}
+			c12instCase(j, a[1] == "1", n, want, strings.Split(a[4], ","))
+			j.flush()
 		}
 	}
 }
@@ -227,7 +229,15 @@ func (e *c12inst) arm(f c12fault) (restore func()) {
 	case "mc":
 		undo = append(undo, c12block(filepath.Join(e.cfgDir, "haproxy.cfg")))
 	case "sh":
-		undo = append(undo, c12block(filepath.Join(e.cfgDir, fmt.Sprintf("haproxy5-backend%03d.cfg", f.k))))
+		// a directory named *.cfg that is still there at reload time would make the simulated HAProxy
+		// refuse the configuration: block the file only when this update is going to write it
+		// (Shrink is idempotent; HAProxyUpdate calls it again)
+		e.inst.Config().Shrink()
+		for _, k := range e.inst.Config().Backends().ChangedShards() {
+			if k == f.k && e.n > 0 {
+				undo = append(undo, c12block(filepath.Join(e.cfgDir, fmt.Sprintf("haproxy5-backend%03d.cfg", f.k))))
+			}
+		}
 	case "ad":
 		for _, i := range f.idxs {
 			e.sim.Faults.AdminErr[e.sim.AdminTr+i] = true
@@ -573,15 +583,72 @@ func (e *c12inst) queueRun(f c12fault) string {
 	return e.obs(err)
 }
 
-func c12instCase(c *ctx, queue bool, n int, want []int, ops []string) {
-	names := c05NamesFor(n, want)
+// c12res is one finished case; cases are computed by a pool of workers and emitted in generation order
+type c12res struct {
+	args, out string
+	stats     []string
+}
+
+type c12jobs struct {
+	c    *ctx
+	jobs []func() c12res
+}
+
+func (j *c12jobs) add(f func() c12res) { j.jobs = append(j.jobs, f) }
+
+func (j *c12jobs) flush() {
+	workers := 6
+	if v, err := strconv.Atoi(os.Getenv("C12_WORKERS")); err == nil && v > 0 {
+		workers = v
+	}
+	res := make([]c12res, len(j.jobs))
+	next := make(chan int)
+	done := make(chan bool)
+	for w := 0; w < workers; w++ {
+		go func() {
+			for i := range next {
+				res[i] = j.jobs[i]()
+			}
+			done <- true
+		}()
+	}
+	for i := range j.jobs {
+		next <- i
+	}
+	close(next)
+	for w := 0; w < workers; w++ {
+		<-done
+	}
+	for _, r := range res {
+		if r.args == "" {
+			continue
+		}
+		j.c.emit("C12", r.args, r.out)
+		for _, s := range r.stats {
+			j.c.stat(s, 1)
+		}
+	}
+	j.jobs = nil
+}
+
+func c12instCase(j *c12jobs, queue bool, n int, want []int, ops []string) {
+	names := c05NamesFor(n, want) // sequential: the shard cache is not shared with the workers
 	if names == nil {
 		fmt.Fprintf(os.Stderr, "C12: no name with the requested shards %v\n", want)
 		return
 	}
-	shards := make([]string, len(names))
+	shardOf := make([]int, len(names))
 	for i, cand := range names {
-		shards[i] = strconv.Itoa(c05shard(n, cand))
+		shardOf[i] = c05shard(n, cand)
+	}
+	ops = append([]string(nil), ops...)
+	j.add(func() c12res { return c12instRun(queue, n, names, shardOf, ops) })
+}
+
+func c12instRun(queue bool, n int, names, shardOf []int, ops []string) c12res {
+	shards := make([]string, len(names))
+	for i := range names {
+		shards[i] = strconv.Itoa(shardOf[i])
 	}
 	qs := "0"
 	if queue {
@@ -662,12 +729,336 @@ func c12instCase(c *ctx, queue bool, n int, want []int, ops []string) {
 		}
 		return strings.Join(obs, ";")
 	}()
-	c.emit("C12", args, out)
-	c.stat("mode_inst", 1)
+	nf := 0
+	for _, op := range ops {
+		if (op[0] == 'u' || op[0] == 'q') && len(op) > 1 {
+			nf++
+		}
+	}
+	return c12res{args, out, []string{"mode_inst", fmt.Sprintf("inst_faults_%d", min(nf, 4)), fmt.Sprintf("inst_shards_%d", n), "inst_queue_" + qs}}
 }
 
-var _ = sha1.Sum
+// ---- inst generators
+
+var c12faults = []string{"tm", "fm", "bm", "cl", "mc", "sh0", "sh1", "sh2", "rs", "rr", "ad0", "ab0", "ad0+1+2+3+4+5+6+7+8+9", "ad1"}
+
+// c12world0 is the harness' picture of what the controller should hold (the "cluster")
+type c12state struct {
+	p     int
+	back  map[int][2]int // live backends: cfg, slots
+	host  map[int]int
+	tcp   int
+	hosts bool // a host was declared once: host 0 stays
+}
+
+// c12batch appends one resync batch (discipline of converters.Sync: removes first, then the adds) and
+// reports how many backends were re-added with a pair left for the dynamic updater
+func c12batch(r *gen.Rng, st *c12state, ops []string, full bool) []string {
+	if full {
+		ops = append(ops, "F")
+		// a full resync parses everything again, some of it changed
+		for x := 0; x < st.p; x++ {
+			if c, ok := st.back[x]; ok {
+				if r.Chance(1, 4) {
+					c = c12mutate(r, c)
+					st.back[x] = c
+				}
+				ops = append(ops, fmt.Sprintf("a%d.%d.%d", x, c[0], c[1]))
+			}
+		}
+		for x := 0; x < st.p; x++ {
+			if c, ok := st.host[x]; ok {
+				if r.Chance(1, 4) {
+					c = r.Range(1, 4)
+					st.host[x] = c
+				}
+				ops = append(ops, fmt.Sprintf("H%d.%d", x, c))
+			}
+		}
+		if st.tcp != 0 {
+			if r.Chance(1, 3) {
+				st.tcp = r.Range(1, 4)
+			}
+			ops = append(ops, fmt.Sprintf("T%d", st.tcp))
+		}
+		return ops
+	}
+	// backends
+	var touched []int
+	for x := 0; x < st.p; x++ {
+		if r.Chance(1, 3) {
+			touched = append(touched, x)
+		}
+	}
+	if len(touched) > 0 {
+		rem := make([]string, len(touched))
+		for i, x := range touched {
+			rem[i] = strconv.Itoa(x)
+		}
+		ops = append(ops, "r"+strings.Join(rem, "."))
+		for _, x := range touched {
+			c, live := st.back[x]
+			switch {
+			case !live:
+				c = [2]int{r.Range(0, 11), r.Intn(3)}
+			case r.Chance(1, 6):
+				delete(st.back, x)
+				continue
+			default:
+				c = c12mutate(r, c)
+			}
+			st.back[x] = c
+			ops = append(ops, fmt.Sprintf("a%d.%d.%d", x, c[0], c[1]))
+		}
+	}
+	// hosts: host 0 is never dropped once declared
+	if r.Chance(1, 3) {
+		var hs []int
+		for x := 0; x < st.p; x++ {
+			if (x == 0 && !st.hosts) || r.Chance(1, 2) {
+				hs = append(hs, x)
+			}
+		}
+		if len(hs) > 0 {
+			rem := make([]string, len(hs))
+			for i, x := range hs {
+				rem[i] = strconv.Itoa(x)
+			}
+			ops = append(ops, "R"+strings.Join(rem, "."))
+			for _, x := range hs {
+				if _, live := st.host[x]; live && x != 0 && r.Chance(1, 4) {
+					delete(st.host, x)
+					continue
+				}
+				c := r.Range(1, 4)
+				if old, live := st.host[x]; live && r.Chance(1, 3) {
+					c = old
+				}
+				st.host[x] = c
+				ops = append(ops, fmt.Sprintf("H%d.%d", x, c))
+			}
+			st.hosts = true
+		}
+	}
+	if r.Chance(1, 4) {
+		st.tcp = r.Range(1, 4)
+		ops = append(ops, fmt.Sprintf("T%d", st.tcp))
+	}
+	return ops
+}
+
+func c12mutate(r *gen.Rng, c [2]int) [2]int {
+	switch r.Intn(6) {
+	case 0: // identical
+	case 1, 2: // another address
+		c[0] = c[0]/4*4 + (c[0]%4+1+r.Intn(3))%4
+	case 3: // another configuration
+		c[0] = (c[0]/4+1+r.Intn(2))%3*4 + c[0]%4
+	case 4:
+		if c[1] > 0 {
+			c[1]--
+		}
+	case 5:
+		c[1]++
+	}
+	return c
+}
+
+func c12pickFault(r *gen.Rng, n int, multi bool) string {
+	f := gen.Pick(r, c12faults)
+	if multi && (f == "ad0" || f == "ab0" || f == "ad1") {
+		f = "ad0+1+2+3+4+5+6+7+8+9" // several pairs: which one gets Send 0 depends on Go's map order
+	}
+	if strings.HasPrefix(f, "sh") && n > 0 {
+		f = fmt.Sprintf("sh%d", r.Intn(n))
+	}
+	return f
+}
+
+func c12instRandom(j *c12jobs, r *gen.Rng, count int) {
+	for i := 0; i < count; i++ {
+		n := gen.Pick(r, []int{0, 0, 2, 3, 3, 7})
+		p := r.Range(2, 4)
+		queue := r.Chance(1, 3)
+		st := &c12state{p: p, back: map[int][2]int{}, host: map[int]int{}}
+		var ops []string
+		nb := r.Range(2, 6)
+		for b := 0; b < nb; b++ {
+			before := len(ops)
+			ops = c12batch(r, st, ops, b > 0 && r.Chance(1, 8))
+			readds := 0
+			for _, o := range ops[before:] {
+				if o[0] == 'a' {
+					readds++
+				}
+			}
+			// one faulty or fault-free update, then maybe the retries
+			f := ""
+			if r.Chance(1, 2) {
+				f = c12pickFault(r, n, readds > 1)
+				if queue && (f == "rs" || f == "rr") {
+					f = ""
+				}
+			}
+			if f == "" {
+				ops = append(ops, "u")
+			} else {
+				ops = append(ops, "u:"+f)
+				if r.Chance(1, 3) {
+					ops = append(ops, "u:"+f) // the same fault again
+				}
+			}
+			if queue && r.Chance(1, 2) {
+				qf := ""
+				if r.Chance(1, 3) {
+					qf = ":" + gen.Pick(r, []string{"rs", "rr"})
+				}
+				ops = append(ops, "q"+qf)
+			}
+			if r.Chance(2, 3) {
+				ops = append(ops, "u")
+				if queue {
+					ops = append(ops, "q")
+				}
+			}
+		}
+		ops = append(ops, "u")
+		if queue {
+			ops = append(ops, "q")
+		}
+		c12instCase(j, queue, n, c05patterns[n][:p], ops)
+	}
+}
+
+// c12instExhaustive: every fault point x every kind of change x {single file, 3 shards} x {direct, queue},
+// fault injected once or twice, followed by the fault-free retries
+func c12instExhaustive(j *c12jobs, all bool) {
+	changes := map[string][]string{
+		"back-conf":   {"r0", "a0.8.0"},
+		"back-addr":   {"r0", "a0.5.0"},
+		"back-2addr":  {"r0.1", "a0.5.0", "a1.6.0"},
+		"back-slots":  {"r0", "a0.4.1"},
+		"back-add":    {"a2.4.0"},
+		"back-del":    {"r1"},
+		"host":        {"R0", "H0.2"},
+		"host-add":    {"H1.1"},
+		"tcp":         {"T2"},
+		"all":         {"r0", "a0.8.0", "R0", "H0.2", "T2"},
+		"none":        {},
+		"full-same":   {"F", "a0.4.0", "a1.4.0", "H0.1", "T1"},
+		"full-change": {"F", "a0.8.0", "a1.4.0", "H0.2", "T2"},
+	}
+	keys := make([]string, 0, len(changes))
+	for k := range changes {
+		keys = append(keys, k)
+	}
+	sort.Strings(keys)
+	faults := []string{"", "tm", "fm", "bm", "cl", "mc", "sh0", "sh2", "rs", "rr", "ad0", "ab0", "ad1", "ad0+1"}
+	for _, queue := range []bool{false, true} {
+		for _, n := range []int{0, 3} {
+			for _, k := range keys {
+				for _, f := range faults {
+					for _, twice := range []bool{false, true} {
+						if f == "" && twice {
+							continue
+						}
+						if twice && !all {
+							continue
+						}
+						if k == "back-2addr" && (f == "ad0" || f == "ab0" || f == "ad1") {
+							continue // two pairs: which one gets Send 0 depends on Go's map order
+						}
+						for _, first := range []bool{false, true} {
+							// first: the fault hits the very first update (no committed data yet)
+							var ops []string
+							if !first {
+								ops = append(ops, "a0.4.0", "a1.4.0", "H0.1", "T1", "u")
+								if queue {
+									ops = append(ops, "q")
+								}
+								ops = append(ops, changes[k]...)
+							} else {
+								if k != "all" && k != "back-add" {
+									continue
+								}
+								ops = append(ops, "a0.4.0", "a1.4.0", "H0.1", "T1")
+							}
+							uf := "u"
+							if f != "" {
+								uf = "u:" + f
+							}
+							if queue && (f == "rs" || f == "rr") {
+								ops = append(ops, "u", "q:"+f)
+								if twice {
+									ops = append(ops, "q:"+f)
+								}
+							} else {
+								ops = append(ops, uf)
+								if twice {
+									ops = append(ops, uf)
+								}
+							}
+							ops = append(ops, "u")
+							if queue {
+								ops = append(ops, "q")
+							}
+							// and the next unrelated change heals or not
+							ops = append(ops, "a3.4.0", "u")
+							if queue {
+								ops = append(ops, "q")
+							}
+							c12instCase(j, queue, n, c05patterns[n][:4], ops)
+						}
+					}
+				}
+			}
+		}
+	}
+}
+
+func c12instCorpus(j *c12jobs) {
+	for _, l := range []string{
+		// failed frontend map write: the retry is a no-op, the next host change heals
+		"0 0 0.0 a0.4.0,H0.1,u,R0,H0.2,u:fm,u,R0,H0.3,u",
+		// failed first update: haproxy.cfg is never written by the retry
+		"0 0 0.0 a0.4.0,H0.1,u:fm,u",
+		"0 0 0.0 a0.4.0,H0.1,u:mc,u",
+		// tcp map / crt-list / main cfg
+		"0 0 0.0 a0.4.0,H0.1,T1,u,T2,u:tm,u,T3,u:cl,u,T4,u:mc,u",
+		// shard files: fault on the second / first changed shard
+		"0 3 2.0 a0.4.0,a1.4.0,u,r0,a0.8.0,r1,a1.8.0,u:sh2,u",
+		"0 3 2.0 a0.4.0,a1.4.0,u,r0,a0.8.0,r1,a1.8.0,u:sh0,u",
+		// direct reload: request / result
+		"0 0 0.0 a0.4.0,u:rs,u",
+		"0 0 0.0 a0.4.0,u,r0,a0.8.0,u:rr,u",
+		// reload queue: the worker retries
+		"1 0 0.0 a0.4.0,u,q:rs,q:rr,q",
+		// admin socket: falls back to a reload
+		"0 0 0.0 a0.4.2,u,r0,a0.5.1,u:ad0,u",
+		"0 0 0.0 a0.4.2,u,r0,a0.5.1,u:ab1,u",
+		// a full resync after the fault does not bring a shard file back
+		"0 3 2.0 a0.4.0,a1.4.0,u,r0,a0.8.0,u:sh2,u,F,a0.8.0,a1.4.0,u",
+	} {
+		f := strings.Fields(l)
+		n, _ := strconv.Atoi(f[1])
+		var want []int
+		for _, s := range strings.Split(f[2], ".") {
+			k, _ := strconv.Atoi(s)
+			want = append(want, k)
+		}
+		c12instCase(j, f[0] == "1", n, want, strings.Split(f[3], ","))
+	}
+}
 
 func runC12(c *ctx) {
-	c12instCase(c, false, 0, []int{0, 0}, strings.Split("a0.4.0,H0.1,T1,u,r0,a0.5.0,u,r0,a0.6.0,u:ad0,u", ","))
+	r := gen.New(c.seed)
+	j := &c12jobs{c: c}
+	c12instCorpus(j)
+	c12instExhaustive(j, c.thorough())
+	n := 600
+	if c.thorough() {
+		n = 20000
+	}
+	c12instRandom(j, r.Fork(), n)
+	j.flush()
 }
